@@ -164,7 +164,8 @@ EnvInPremise == Leaf => ~EnvMalformed(env) /\ RejectReasons(env) = {}
 \* I => D, except on the instances matched by the known finding
 ImplSatisfiesD == Leaf => C19Verdict(env, lat) = {}
 \* the known finding is exactly "some region to be kept has a vertical ridge"
-DefectIsVerticalRidge == Leaf => ((lat.raised # "") <=> HasVerticalRidge(env))
+\* with the repaired line_eq (LineEqRaises = FALSE) the walk never raises; with the historical one it raised exactly on vertical ridges
+DefectIsVerticalRidge == Leaf => ((lat.raised # "") <=> (LineEqRaises /\ HasVerticalRidge(env)))
                                  /\ (lat.raised # "" => C19KF(env, lat) # {})
 \* with a line_eq that does not raise, the same walk satisfies D on every instance (the proposed repair suffices)
 RepairedImplSatisfiesD == Leaf => fix.raised = "" /\ C19Verdict(env, fix) = {}
